@@ -34,7 +34,17 @@ func Fill(i, a, b int) []byte {
 type Run struct{ I, A, B int }
 
 // Origin describes one body that observed bytes may come from.
-type Origin struct{ I, Len int }
+type Origin struct {
+	I, Len int
+	Lit    []byte // literal content instead of the pattern (bodies that imitate framing)
+}
+
+func (o Origin) bytes() []byte {
+	if o.Lit != nil {
+		return o.Lit
+	}
+	return Fill(o.I, 0, o.Len)
+}
 
 // Runs maps observed bytes back to runs over the given origins. Bytes that match no origin are reported as
 // foreign runs {0, 0, count}.
@@ -54,7 +64,7 @@ func RunsHint(obs []byte, origins []Origin, hintI, hintA int) []Run {
 				continue
 			}
 			if pats[oi] == nil {
-				pats[oi] = Fill(o.I, 0, o.Len)
+				pats[oi] = o.bytes()
 			}
 			l := 0
 			for p+l < len(obs) && hintA+l < o.Len && obs[p+l] == pats[oi][hintA+l] {
@@ -72,7 +82,7 @@ func RunsHint(obs []byte, origins []Origin, hintI, hintA int) []Run {
 				continue
 			}
 			if pats[oi] == nil {
-				pats[oi] = Fill(o.I, 0, o.Len)
+				pats[oi] = o.bytes()
 			}
 			w := 8
 			if len(obs)-p < w {
